@@ -10,13 +10,13 @@ def jobs_for(ctx):
     add("plain", fam="ladder", emb="0,4", npts=160, cfg="notree", seed=s)
     add("hi", fam="ladder", emb="0,3", npts=160, cfg="notree", seed=s)
     # random general-position inputs, identity embedding (sub-unit rounding visible)
-    nsh = 10 if q else 40; per = 14 if q else 60
+    nsh = 12 if q else 48; per = 16 if q else 120
     for k in range(nsh):
         add("plain" if k % 2 == 0 else "hi", fam="gps", n=per, emb="0", npts=220 if q else 400, cfg="notree", seed=s * 1000 + k,
             R=[32, 48, 64][k % 3], maxpaths=2 if k % 4 else 3, maxv=[5, 6, 7][k % 3])
     # the same family under big-magnitude embeddings (|coordinate| up to 2^61)
     for k in range(4 if q else 16):
-        add("plain" if k % 2 == 0 else "hi", fam="gps", n=8 if q else 30, emb="1,2,3,4,6,7", npts=160, cfg="notree", seed=s * 1000 + 500 + k, R=48)
+        add("plain" if k % 2 == 0 else "hi", fam="gps", n=8 if q else 60, emb="1,2,3,4,6,7", npts=160, cfg="notree", seed=s * 1000 + 500 + k, R=48)
     return J
 
 RULE = ("inputs: winding ladder (all 49 (ws,wc) pairs, 2 shapes) + random general-position polygons (TLC-certified GP, "
